@@ -36,6 +36,17 @@ type cworld struct {
 	sent    []string    // wire log of data toward peers ("send:<peer>:<payload>", "chan:<n>:<payload>")
 	perms   map[string]bool
 	binds   map[uint16]string
+	relayed net.PacketConn // the relayed conn of the scenario, closed at teardown (stops its periodic timers)
+}
+
+// teardown releases everything the client side started; without closing the
+// relayed conn its three PeriodicTimer goroutines would outlive the execution.
+func (w *cworld) teardown() {
+	if w.relayed != nil {
+		_ = w.relayed.Close()
+	}
+	w.cl.Close()
+	_ = w.cs.Close()
 }
 
 func newCWorld(rto time.Duration) *cworld {
@@ -284,7 +295,7 @@ func k1b() *sched.Scenario {
 				}
 
 				return out
-			}, func() { w.cl.Close(); _ = w.cs.Close() }
+			}, w.teardown
 		}}
 }
 
@@ -306,6 +317,7 @@ func k2() *sched.Scenario {
 					return
 				}
 				nt.set("alloc", "ok")
+				w.relayed = conn
 				vsched.Mark()
 				for _, name := range []string{"w1", "w2"} {
 					vsched.Go(name, func() {
@@ -352,7 +364,7 @@ func k2() *sched.Scenario {
 				}
 
 				return out
-			}, func() { w.cl.Close(); _ = w.cs.Close() }
+			}, w.teardown
 		}}
 }
 
@@ -372,6 +384,7 @@ func k3() *sched.Scenario {
 					return
 				}
 				nt.set("alloc", "ok")
+				w.relayed = conn
 				_, _ = conn.WriteTo([]byte("first"), peerA)
 				vsched.Mark()
 				vsched.Go("writer", func() {
@@ -399,7 +412,7 @@ func k3() *sched.Scenario {
 				}
 
 				return out
-			}, func() { w.cl.Close(); _ = w.cs.Close() }
+			}, w.teardown
 		}}
 }
 
@@ -420,6 +433,7 @@ func k5() *sched.Scenario {
 					return
 				}
 				nt.set("alloc", "ok")
+				w.relayed = conn
 				_, _ = conn.WriteTo([]byte("first"), peerA)
 				vsched.Mark()
 				vsched.Go("reader", func() {
@@ -458,7 +472,7 @@ func k5() *sched.Scenario {
 				}
 
 				return out
-			}, func() { w.cl.Close(); _ = w.cs.Close() }
+			}, w.teardown
 		}}
 }
 
